@@ -7,7 +7,21 @@
  * meaning).  Nothing here is transcribed from the function bodies.
  *
  * Which group of contracts is active is selected by -DINF_<GROUP> in the registry entry (a function has
- * at most one contract per harness TU).
+ * at most one contract per harness TU):
+ *   INF_BITS   (a) inflate_in_load, inflate_in_read_bits_unsafe, inflate_in_read_bits      [proved]
+ *   INF_HDR    (b) read_header (table builders = assumed frame-only stubs)                  [proved, 3 runs]
+ *   INF_HDRS   (b) read_header_stateful (read_header = assumed interface stub, memcpy = recording stub)
+ *   INF_LIT    (c) decode_literal_block                                                     [proved]
+ *   INF_COPY   (d) byte_copy contract text; INF_COPY_PLAIN: bounded assertion harnesses
+ *   INF_CODES  (e) bit_reverse2, set_codes (RFC steps as ghost code; table_length 19/30/32)   [proved]
+ *   INF_CKSUM  (f) check_gzip_checksum, check_zlib_checksum (exhaustive literal pairs), finalize_adler32,
+ *                  update_checksum                                                           [proved]
+ *   INF_DYN    (g) setup_dynamic_header: early exits exact, code-length loop bounded
+ *   INF_INIT   (h) isal_inflate_init, isal_inflate_reset, isal_inflate_set_dict (memcpy = recording stub)
+ * Contracts other helpers can reuse with --replace-call-with-contract: C_inflate_in_load,
+ * C_inflate_in_read_bits_unsafe, C_inflate_in_read_bits (all three carry ghost ties g_s0/g_bits0/g_n in
+ * their requires, so a caller must set those ghosts before the call), C_decode_literal_block,
+ * C_byte_copy (ghost ties g_d/g_n), C_bit_reverse2.
  *
  * ---------------------------------------------------------------------------------------------
  * The abstract input of the decoder ("logical bit stream") is
@@ -166,8 +180,8 @@ extern uint8_t w_q0;  /* ghost: value at position g_q at entry (snapshot taken b
  * WF_type0: on entry of the TYPE0 state the accumulator holds whole bytes only, and an empty accumulator
  * is all zero (both are postconditions of read_header's stored branch and of this function).
  *
- * avail_in <= 2^32-9: the code computes `avail_in + bytes` in uint32_t; see the report
- * (possible defect for avail_in within 8 of 2^32). */
+ * Every avail_in up to 2^32-1 is covered: on the pinned tree the code computed `avail_in + bytes` in uint32_t
+ * (genuine defect for avail_in within 8 of 2^32, repaired by /repo commit fdffa6b). */
 #define WF_type0(s)                                                                                \
         (WF_inflate(s) && (s)->read_in_length % 8 == 0 && (s)->type0_block_len >= 0 &&             \
          (s)->type0_block_len <= 65535 && ((s)->read_in_length != 0 || (s)->read_in == 0))
@@ -175,10 +189,12 @@ extern uint8_t w_q0;  /* ghost: value at position g_q at entry (snapshot taken b
 #define DLB_AO __CPROVER_old(state->avail_out)
 #define DLB_AI __CPROVER_old(state->avail_in)
 #define DLB_B ((uint32_t) (__CPROVER_old(state->read_in_length) / 8))
-#define DLB_N MIN2(MIN2((uint32_t) DLB_LEN, DLB_AO), DLB_B + DLB_AI)
+/* 64-bit sum: on the pinned tree the code added these in uint32_t (finding, repaired by /repo fdffa6b) */
+#define DLB_SUM ((uint64_t) DLB_B + (uint64_t) DLB_AI)
+#define DLB_N ((uint32_t) MIN2((uint64_t) MIN2((uint32_t) DLB_LEN, DLB_AO), DLB_SUM))
 #if defined(INF_LIT)
 #define C_decode_literal_block                                                                     \
-        __CPROVER_requires(INF_FRESH_STATE(state) && state->avail_in <= 0xfffffff7u)               \
+        __CPROVER_requires(INF_FRESH_STATE(state))                                                 \
         __CPROVER_requires(INF_FRESH_IN(state) && INF_FRESH_OUT(state))                            \
         __CPROVER_requires(WF_type0(state))                                                        \
         __CPROVER_requires(state->avail_out == 0 || g_q < state->avail_out)                        \
@@ -379,5 +395,463 @@ extern uint32_t g_tb, g_tt; /* ghost: B and T at entry */
                           (w_crc_calls == 0 && w_ad_calls == 0 &&                                  \
                            state->crc == __CPROVER_old(state->crc)))
 #endif /* INF_CKSUM */
+
+/* =============================================================================================
+ * (b) read_header -- block header (RFC 1951 3.2.3) and stored-block header (3.2.4); C02/C06
+ *
+ * With S = the logical input stream (bit 0 first) and NB its length in bits:
+ *   NB < 3                      ->  ISAL_END_INPUT (all input has been taken into the accumulator)
+ *   BFINAL = S[0] is recorded in state->bfinal;  BTYPE = S[1..2]
+ *   BTYPE == 3                  ->  ISAL_INVALID_BLOCK
+ *   BTYPE == 1 / 2              ->  the fixed / dynamic table builder is called exactly once, the logical
+ *                                   stream at that call is S without its first 3 bits; its result is returned
+ *   BTYPE == 0: pad = (NB-3) % 8 bits are skipped (to the next byte boundary of the input),
+ *        fewer than 32 bits after that  ->  ISAL_END_INPUT
+ *        LEN = next 16 bits, NLEN = the 16 after;  LEN != ~NLEN  ->  ISAL_INVALID_BLOCK
+ *        else 0, type0_block_len == LEN, block_state == ISAL_BLOCK_TYPE0, and the logical stream is S
+ *        without its first 35+pad bits (whole bytes only remain in the accumulator: WF_type0).
+ * "Logical stream after == logical stream before shifted by k bits" is ADV(k): the number of bits drops by
+ * k and the first 64 bits of the new stream are bits k..k+63 of the old one (g_s1:g_s0 = its first 128). */
+#define PEEK64_2(s)                                                                                \
+        (((s)->avail_in > 8 ? (uint64_t) (s)->next_in[8] : 0ULL) |                                 \
+         ((s)->avail_in > 9 ? ((uint64_t) (s)->next_in[9]) << 8 : 0ULL) |                          \
+         ((s)->avail_in > 10 ? ((uint64_t) (s)->next_in[10]) << 16 : 0ULL) |                       \
+         ((s)->avail_in > 11 ? ((uint64_t) (s)->next_in[11]) << 24 : 0ULL) |                       \
+         ((s)->avail_in > 12 ? ((uint64_t) (s)->next_in[12]) << 32 : 0ULL) |                       \
+         ((s)->avail_in > 13 ? ((uint64_t) (s)->next_in[13]) << 40 : 0ULL) |                       \
+         ((s)->avail_in > 14 ? ((uint64_t) (s)->next_in[14]) << 48 : 0ULL) |                       \
+         ((s)->avail_in > 15 ? ((uint64_t) (s)->next_in[15]) << 56 : 0ULL))
+/* bits 64..127 of the logical stream */
+#define STREAM64_HI(s)                                                                             \
+        ((s)->read_in_length <= 0                                                                  \
+                 ? PEEK64_2(s)                                                                     \
+                 : ((s)->read_in_length >= 64                                                      \
+                            ? PEEK64(s)                                                            \
+                            : ((PEEK64(s) >> (64 - (s)->read_in_length)) |                         \
+                               (PEEK64_2(s) << (s)->read_in_length))))
+extern uint64_t g_s1; /* ghost: bits 64..127 of the logical input stream at entry */
+/* bits k..k+63 of the entry stream (zero beyond bit 127), 0 <= k < 128 */
+#define S_FROM(k)                                                                                  \
+        ((k) == 0 ? g_s0                                                                           \
+                  : ((k) < 64 ? ((g_s0 >> ((k) & 63)) | (g_s1 << ((64 - (k)) & 63)))               \
+                              : (g_s1 >> (((k) - 64) & 63))))
+#define ADV(s, k) (STREAM_BITS(s) == g_bits0 - (int64_t) (k) && STREAM64(s) == S_FROM(k))
+#define RH_BTYPE ((uint32_t) ((g_s0 >> 1) & 3))
+#define RH_PAD ((uint32_t) ((g_bits0 - 3) % 8))
+#define RH_LEN ((uint32_t) ((g_s0 >> (3 + RH_PAD)) & 0xffff))
+#define RH_NLEN ((uint32_t) ((g_s0 >> (19 + RH_PAD)) & 0xffff))
+#if defined(INF_HDR)
+#include "stubs_inflate.h"
+#define C_read_header                                                                              \
+        __CPROVER_requires(INF_FRESH_STATE(state) && state->avail_in <= 0xfffffff7u &&             \
+                           INF_FRESH_IN(state))                                                    \
+        __CPROVER_requires(WF_inflate(state) && w_st_calls == 0 && w_dy_calls == 0)                \
+        __CPROVER_requires(g_s0 == STREAM64(state) && g_s1 == STREAM64_HI(state) &&                \
+                           g_bits0 == STREAM_BITS(state))                                          \
+        __CPROVER_assigns(state->read_in, state->read_in_length, state->next_in, state->avail_in,  \
+                          state->bfinal, state->type0_block_len, state->block_state,               \
+                          state->lit_huff_code, state->dist_huff_code, w_st_calls, w_dy_calls,     \
+                          w_dy_read_in, w_dy_len, w_dy_avail, w_dy_next_in)                        \
+        __CPROVER_ensures(__CPROVER_return_value == 0 || __CPROVER_return_value == ISAL_END_INPUT || \
+                          __CPROVER_return_value == ISAL_INVALID_BLOCK)                            \
+        /* input position stays inside the caller's buffer and only moves forward */               \
+        __CPROVER_ensures(state->avail_in <= __CPROVER_old(state->avail_in) &&                     \
+                          state->next_in == __CPROVER_old(state->next_in) +                        \
+                                                    (__CPROVER_old(state->avail_in) - state->avail_in)) \
+        __CPROVER_ensures(g_bits0 < 3 ==>                                                          \
+                          (__CPROVER_return_value == ISAL_END_INPUT && state->avail_in == 0 &&     \
+                           w_st_calls == 0 && w_dy_calls == 0))                                    \
+        __CPROVER_ensures(g_bits0 >= 3 ==> state->bfinal == (uint32_t) (g_s0 & 1))                 \
+        __CPROVER_ensures((g_bits0 >= 3 && RH_BTYPE == 3) ==>                                      \
+                          (__CPROVER_return_value == ISAL_INVALID_BLOCK && w_st_calls == 0 &&      \
+                           w_dy_calls == 0 &&                                                      \
+                           state->block_state == __CPROVER_old(state->block_state)))               \
+        __CPROVER_ensures((g_bits0 >= 3 && RH_BTYPE == 1) ==>                                      \
+                          (w_st_calls == 1 && w_dy_calls == 0 && __CPROVER_return_value == 0 &&    \
+                           state->block_state == ISAL_BLOCK_CODED && ADV(state, 3) &&              \
+                           WF_inflate(state)))                                                     \
+        __CPROVER_ensures((g_bits0 >= 3 && RH_BTYPE == 2) ==>                                      \
+                          (w_dy_calls == 1 && w_st_calls == 0 &&                                   \
+                           __CPROVER_return_value == g_dy_ret &&                                   \
+                           (int64_t) w_dy_len + 8 * (int64_t) w_dy_avail == g_bits0 - 3 &&         \
+                           w_dy_len >= 0 &&                                                        \
+                           LOWBITS(w_dy_read_in, w_dy_len) == LOWBITS(S_FROM(3), w_dy_len) &&      \
+                           w_dy_next_in == __CPROVER_old(state->next_in) +                         \
+                                                   (__CPROVER_old(state->avail_in) - w_dy_avail))) \
+        /* stored block */                                                                         \
+        __CPROVER_ensures((g_bits0 >= 3 && RH_BTYPE == 0) ==> (w_st_calls == 0 && w_dy_calls == 0)) \
+        __CPROVER_ensures((g_bits0 >= 3 && RH_BTYPE == 0 && g_bits0 - 3 - RH_PAD < 32) ==>         \
+                          (__CPROVER_return_value == ISAL_END_INPUT && state->avail_in == 0))      \
+        __CPROVER_ensures((g_bits0 >= 3 && RH_BTYPE == 0 && g_bits0 - 3 - RH_PAD >= 32 &&          \
+                           RH_LEN != (~RH_NLEN & 0xffff)) ==>                                      \
+                          (__CPROVER_return_value == ISAL_INVALID_BLOCK &&                         \
+                           state->block_state == __CPROVER_old(state->block_state)))               \
+        __CPROVER_ensures((g_bits0 >= 3 && RH_BTYPE == 0 && g_bits0 - 3 - RH_PAD >= 32 &&          \
+                           RH_LEN == (~RH_NLEN & 0xffff)) ==>                                      \
+                          (__CPROVER_return_value == 0 &&                                          \
+                           state->type0_block_len == (int32_t) RH_LEN &&                           \
+                           state->block_state == ISAL_BLOCK_TYPE0 && ADV(state, 35 + RH_PAD) &&    \
+                           WF_type0(state)))
+#endif /* INF_HDR */
+
+/* =============================================================================================
+ * (e) canonical Huffman code assignment: bit_reverse2, set_codes (RFC 1951 3.2.2; C02/C06)
+ *
+ * RFC 1951 3.2.2 with bl_count = count[]:  next_code[L] = sum_{1<=i<L} count[i] * 2^(L-i);  symbol n
+ * with length L > 0 gets Code(n) = next_code[L] + #{m < n : len(m) == L}; length 0 gets none.  isa-l stores
+ * the L code bits reversed (deflate sends Huffman codes most significant bit first, the decoder indexes
+ * by the bits as they arrive, least significant first) in the low 24 bits and L in the top byte.
+ * A set of lengths is over-subscribed iff its Kraft sum exceeds 1: sum_{1<=i<=15} count[i]*2^(15-i) > 2^15;
+ * set_codes must return ISAL_INVALID_BLOCK exactly then, and touch nothing in that case.  The contract states
+ * the test in the RFC's own terms (the count[15] codes of length 15 start at next_code[15] and must fit below
+ * 2^15: SC_OVER); that SC_OVER is the Kraft inequality is the arithmetic lemma h_set_codes_kraft_lemma.
+ *
+ * Specification = the RFC's steps 2 and 3 run as ghost code next to the real loop:
+ *   E_set_codes   g_nc[bits] = RFC next_code[bits] (step 2: code = (code + bl_count[bits-1]) << 1, bl_count[0]=0)
+ *   H_set_codes_2 for the symbol being visited: if (len != 0) { Code = g_nc[len]; g_nc[len]++; }  (step 3)
+ *                 and for the arbitrary symbol g_p the RFC code is remembered in w_code.
+ * Postcondition: the stored entry of symbol g_p (arbitrary) is its length in the top byte and the g_l low
+ * bits of w_code in reversed order (arbitrary bit g_b), nothing else set.
+ * Precondition "every code length <= 15" (next_code has 16 entries; callers only store symbols < 16):
+ * instantiated at each visited entry by HARNESS_ASSUME in the hook (input shaping, one instance of the
+ * universally quantified precondition per executed iteration; CBMC contracts have no usable forall).
+ * table_length is one of the call-site constants 19 / 30 / 32 (one harness each), loops fully unwound.
+ * A loop-contract version for arbitrary table_length was tried: dfcc's write-set check for stores through
+ * the loop-carried pointer huff_code_table (unknown object after the loop havoc) exhausts 12 GB. */
+extern uint32_t g_l;      /* ghost: code length of symbol g_p */
+extern uint32_t g_nc[16]; /* ghost: the RFC's next_code[] */
+extern uint32_t w_code;   /* ghost: RFC code of symbol g_p */
+/* next_code[] exactly as RFC 1951 3.2.2 step 2 defines it (bl_count[0] = 0; code = (code + bl_count[bits-1]) << 1) */
+#define SC_NC1 0u
+#define SC_NC2 ((SC_NC1 + (uint32_t) count[1]) << 1)
+#define SC_NC3 ((SC_NC2 + (uint32_t) count[2]) << 1)
+#define SC_NC4 ((SC_NC3 + (uint32_t) count[3]) << 1)
+#define SC_NC5 ((SC_NC4 + (uint32_t) count[4]) << 1)
+#define SC_NC6 ((SC_NC5 + (uint32_t) count[5]) << 1)
+#define SC_NC7 ((SC_NC6 + (uint32_t) count[6]) << 1)
+#define SC_NC8 ((SC_NC7 + (uint32_t) count[7]) << 1)
+#define SC_NC9 ((SC_NC8 + (uint32_t) count[8]) << 1)
+#define SC_NC10 ((SC_NC9 + (uint32_t) count[9]) << 1)
+#define SC_NC11 ((SC_NC10 + (uint32_t) count[10]) << 1)
+#define SC_NC12 ((SC_NC11 + (uint32_t) count[11]) << 1)
+#define SC_NC13 ((SC_NC12 + (uint32_t) count[12]) << 1)
+#define SC_NC14 ((SC_NC13 + (uint32_t) count[13]) << 1)
+#define SC_NC15 ((SC_NC14 + (uint32_t) count[14]) << 1)
+#define SC_FIRST(L) \
+        ((L) == 1 ? SC_NC1 : \
+         ((L) == 2 ? SC_NC2 : \
+         ((L) == 3 ? SC_NC3 : \
+         ((L) == 4 ? SC_NC4 : \
+         ((L) == 5 ? SC_NC5 : \
+         ((L) == 6 ? SC_NC6 : \
+         ((L) == 7 ? SC_NC7 : \
+         ((L) == 8 ? SC_NC8 : \
+         ((L) == 9 ? SC_NC9 : \
+         ((L) == 10 ? SC_NC10 : \
+         ((L) == 11 ? SC_NC11 : \
+         ((L) == 12 ? SC_NC12 : \
+         ((L) == 13 ? SC_NC13 : \
+         ((L) == 14 ? SC_NC14 : \
+         ((L) == 15 ? SC_NC15 : \
+         0u)))))))))))))))
+/* over-subscription: the count[15] codes of length 15 start at next_code[15] and must fit below 2^15
+ * (equivalently the Kraft sum  sum_i count[i]*2^(15-i)  exceeds 2^15; that equivalence is pure arithmetic
+ * and is the separate lemma harness set_codes_kraft_lemma) */
+#define SC_OVER ((uint64_t) SC_NC15 + count[15] > 32768u)
+#define SC_KRAFT (((uint64_t) count[1] << (15 - 1)) + ((uint64_t) count[2] << (15 - 2)) + ((uint64_t) \
+         count[3] << (15 - 3)) + ((uint64_t) count[4] << (15 - 4)) + ((uint64_t) \
+         count[5] << (15 - 5)) + ((uint64_t) count[6] << (15 - 6)) + ((uint64_t) \
+         count[7] << (15 - 7)) + ((uint64_t) count[8] << (15 - 8)) + ((uint64_t) \
+         count[9] << (15 - 9)) + ((uint64_t) count[10] << (15 - 10)) + ((uint64_t) \
+         count[11] << (15 - 11)) + ((uint64_t) count[12] << (15 - 12)) + ((uint64_t) \
+         count[13] << (15 - 13)) + ((uint64_t) count[14] << (15 - 14)) + ((uint64_t) \
+         count[15] << (15 - 15)))
+#define SC_T0 (__CPROVER_old(huff_code_table))
+/* what entry E must look like for symbol g_p whose RFC code is CODE (bit g_b of the stored, reversed code) */
+#define SC_DONE_OF(E, CODE)                                                                        \
+        (((E) >> 24) == g_l && (((E) & 0xffffff) >> g_l) == 0 &&                                   \
+         (g_b < g_l ==> ((((E) >> g_b) & 1) == (((CODE) >> (g_l - 1 - g_b)) & 1))))
+#if defined(INF_CODES)
+#define C_bit_reverse2                                                                             \
+        __CPROVER_requires(length <= 16 && g_n == length && g_d == bits)                           \
+        __CPROVER_assigns()                                                                        \
+        __CPROVER_ensures(g_b < g_n ==>                                                            \
+                          ((__CPROVER_return_value >> g_b) & 1) == ((g_d >> (g_n - 1 - g_b)) & 1)) \
+        __CPROVER_ensures((__CPROVER_return_value >> g_n) == 0)
+#define C_set_codes                                                                                \
+        __CPROVER_requires(table_length >= 0 && table_length <= 32 && g_p < (uint32_t) table_length) \
+        __CPROVER_requires(__CPROVER_is_fresh(huff_code_table, table_length * sizeof(struct huff_code))) \
+        __CPROVER_requires(__CPROVER_is_fresh(count, 16 * sizeof(uint16_t)))                       \
+        __CPROVER_requires(g_l == huff_code_table[g_p].length && g_l <= 15 &&                      \
+                           g_n == huff_code_table[g_p].code_and_length)                            \
+        __CPROVER_assigns(w_code, __CPROVER_object_whole(g_nc),                                    \
+                          __CPROVER_object_upto(huff_code_table, table_length * sizeof(struct huff_code))) \
+        __CPROVER_ensures(__CPROVER_return_value == 0 ||                                           \
+                          __CPROVER_return_value == ISAL_INVALID_BLOCK)                            \
+        __CPROVER_ensures((__CPROVER_return_value == ISAL_INVALID_BLOCK) == SC_OVER)               \
+        /* rejected set or unused symbol: entry untouched */                                       \
+        __CPROVER_ensures((__CPROVER_return_value != 0 || g_l == 0) ==>                            \
+                          SC_T0[g_p].code_and_length == g_n)                                       \
+        /* accepted: length kept, the RFC's code, bit-reversed */                                  \
+        __CPROVER_ensures((__CPROVER_return_value == 0 && g_l != 0) ==>                            \
+                          SC_DONE_OF(SC_T0[g_p].code_and_length, w_code))
+#define SC_IDX ((uint64_t) __CPROVER_POINTER_OFFSET(huff_code_table) / sizeof(struct huff_code))
+/* RFC step 2 */
+#define E_set_codes                                                                                \
+        g_nc[0] = 0;                                                                               \
+        g_nc[1] = SC_NC1;                                                                          \
+        g_nc[2] = SC_NC2;                                                                          \
+        g_nc[3] = SC_NC3;                                                                          \
+        g_nc[4] = SC_NC4;                                                                          \
+        g_nc[5] = SC_NC5;                                                                          \
+        g_nc[6] = SC_NC6;                                                                          \
+        g_nc[7] = SC_NC7;                                                                          \
+        g_nc[8] = SC_NC8;                                                                          \
+        g_nc[9] = SC_NC9;                                                                          \
+        g_nc[10] = SC_NC10;                                                                        \
+        g_nc[11] = SC_NC11;                                                                        \
+        g_nc[12] = SC_NC12;                                                                        \
+        g_nc[13] = SC_NC13;                                                                        \
+        g_nc[14] = SC_NC14;                                                                        \
+        g_nc[15] = SC_NC15;
+#define H_set_codes_1 VCANARY();
+/* RFC step 3 for the symbol being visited */
+#define H_set_codes_2                                                                              \
+        {                                                                                          \
+                HARNESS_ASSUME(huff_code_table->length <= 15);                                     \
+                if (huff_code_table->length != 0) {                                                \
+                        if (SC_IDX == g_p)                                                         \
+                                w_code = g_nc[huff_code_table->length];                            \
+                        g_nc[huff_code_table->length]++;                                           \
+                }                                                                                  \
+                VCANARY();                                                                         \
+        }
+#endif /* INF_CODES */
+
+/* =============================================================================================
+ * (h) isal_inflate_init / isal_inflate_reset (C15), isal_inflate_set_dict (C17)
+ *
+ * init (igzip_lib.h: "Initialize decompression state data structure"): every scalar the decoder reads
+ * before writing it gets its start value; reset ("Reinitialize ... preserving user settings"): the same
+ * for every scalar except the caller's stream fields next_in/avail_in/next_out/avail_out and the settings
+ * crc_flag/hist_bits, whatever the previous contents (state is unconstrained garbage on entry).
+ * INF_FRESHLIKE(s): the value init gives to the fields reset is responsible for. */
+#define INF_FRESHLIKE(s)                                                                           \
+        ((s)->read_in == 0 && (s)->read_in_length == 0 && (s)->total_out == 0 &&                   \
+         (s)->dict_length == 0 && (s)->block_state == ISAL_BLOCK_NEW_HDR && (s)->bfinal == 0 &&    \
+         (s)->crc == 0 && (s)->type0_block_len == 0 && (s)->write_overflow_lits == 0 &&            \
+         (s)->write_overflow_len == 0 && (s)->copy_overflow_length == 0 &&                         \
+         (s)->copy_overflow_distance == 0 && (s)->wrapper_flag == 0 && (s)->tmp_in_size == 0 &&    \
+         (s)->tmp_out_processed == 0 && (s)->tmp_out_valid == 0)
+#define INF_FRESHLIKE_ASSIGNS                                                                      \
+        state->read_in, state->read_in_length, state->total_out, state->dict_length,               \
+                state->block_state, state->bfinal, state->crc, state->type0_block_len,             \
+                state->write_overflow_lits, state->write_overflow_len,                             \
+                state->copy_overflow_length, state->copy_overflow_distance, state->wrapper_flag,   \
+                state->tmp_in_size, state->tmp_out_processed, state->tmp_out_valid
+#if defined(INF_INIT)
+#include "stubs_inflate.h"
+#define C_isal_inflate_init                                                                        \
+        __CPROVER_requires(INF_FRESH_STATE(state))                                                 \
+        __CPROVER_assigns(INF_FRESHLIKE_ASSIGNS, state->next_in, state->avail_in, state->next_out, \
+                          state->avail_out, state->crc_flag, state->hist_bits)                     \
+        __CPROVER_ensures(INF_FRESHLIKE(state) && state->next_in == NULL && state->avail_in == 0 && \
+                          state->next_out == NULL && state->avail_out == 0 &&                      \
+                          state->crc_flag == 0 && state->hist_bits == 0)                           \
+        __CPROVER_ensures(WF_inflate(state))
+#define C_isal_inflate_reset                                                                       \
+        __CPROVER_requires(INF_FRESH_STATE(state))                                                 \
+        __CPROVER_assigns(INF_FRESHLIKE_ASSIGNS)                                                   \
+        __CPROVER_ensures(INF_FRESHLIKE(state))
+/* isal_inflate_set_dict (igzip_lib.h: "should be called after isal_inflate_init ... if the dictionary is
+ * longer than IGZIP_HIST_SIZE only the last IGZIP_HIST_SIZE bytes will be used"; returns COMP_OK or
+ * ISAL_INVALID_STATE): a call in a wrong state changes nothing and copies nothing; otherwise exactly one
+ * copy of the last N = min(dict_len, IGZIP_HIST_SIZE) dictionary bytes to tmp_out_buffer[0..N) (memcpy is a
+ * recording stub, see contracts/stubs_inflate.h) and the three bookkeeping fields become N. */
+#define SD_BAD(s) ((s)->block_state != ISAL_BLOCK_NEW_HDR || (s)->tmp_out_processed != (s)->tmp_out_valid)
+#define SD_N MIN2(dict_len, (uint32_t) IGZIP_HIST_SIZE)
+#define C_isal_inflate_set_dict                                                                    \
+        __CPROVER_requires(INF_FRESH_STATE(state) && __CPROVER_is_fresh(dict, dict_len))           \
+        __CPROVER_requires(g_n == (SD_BAD(state) ? 1u : 0u) && w_mc_calls == 0)                    \
+        __CPROVER_assigns(g_n == 0 : state->tmp_out_processed, state->tmp_out_valid,               \
+                                     state->dict_length, w_mc_calls,                                \
+                                     __CPROVER_object_whole(w_mc_dst),                             \
+                                     __CPROVER_object_whole(w_mc_src),                             \
+                                     __CPROVER_object_whole(w_mc_n))                               \
+        __CPROVER_ensures(g_n != 0 ==>                                                             \
+                          (__CPROVER_return_value == ISAL_INVALID_STATE && w_mc_calls == 0))       \
+        __CPROVER_ensures(g_n == 0 ==>                                                             \
+                          (__CPROVER_return_value == COMP_OK &&                                    \
+                           state->tmp_out_processed == (int32_t) SD_N &&                           \
+                           state->tmp_out_valid == (int32_t) SD_N && state->dict_length == SD_N && \
+                           w_mc_calls == 1 &&                                                      \
+                           w_mc_dst[0] == (const void *) state->tmp_out_buffer &&                  \
+                           w_mc_src[0] == (const void *) (dict + (dict_len - SD_N)) &&             \
+                           w_mc_n[0] == SD_N))
+#endif /* INF_INIT */
+
+/* =============================================================================================
+ * (d) byte_copy -- the overlapping LZ77 copy (RFC 1951 3.2.3: "the referenced string may overlap the
+ * current position"): afterwards every copied byte equals the byte `distance` before it,
+ * dest[g] == dest[g - distance] for every 0 <= g < length (ghost index g_p), and nothing outside
+ * [dest, dest+length) is written.  The caller owns the window [dest-distance, dest+length). */
+/* repeat_length <= 258: the longest match RFC 1951 can encode (length symbol 285), which is also the
+ * largest value both call sites can pass (repeat_length resp. copy_overflow_length <= 258).
+ * The contract text C_byte_copy is what callers may use with --replace-call-with-contract; it is
+ * established by the un-instrumented harness h_byte_copy (harness/igzip/inflate_init.c), which asserts
+ * BC_POST and the frame on a window of exactly distance+length bytes with the loop unwound 259 times.
+ * (dfcc enforcement was tried both with a loop contract and with unwinding: its per-store write-set check
+ * on the walking pointers exhausts 12-14 GB.) */
+#define BC_POST(d0) (g_p < g_n ==> (d0)[g_p] == *((d0) + g_p - g_d))
+#if defined(INF_COPY)
+#define C_byte_copy                                                                                \
+        __CPROVER_requires(repeat_length >= 0 && repeat_length <= 258 &&                           \
+                           lookback_distance <= 0x100000 && g_d == lookback_distance &&            \
+                           g_n == (uint32_t) repeat_length)                                        \
+        __CPROVER_requires(__CPROVER_rw_ok(dest - lookback_distance,                               \
+                                           lookback_distance + (uint64_t) repeat_length))          \
+        __CPROVER_assigns(__CPROVER_object_upto(dest, repeat_length))                              \
+        __CPROVER_ensures(BC_POST(__CPROVER_old(dest)))
+#endif
+#if defined(INF_COPY_PLAIN)
+#define H_byte_copy_1 VCANARY();
+#endif /* INF_COPY_PLAIN */
+
+/* =============================================================================================
+ * read_header_stateful (C07): the resumable wrapper around read_header.
+ *
+ * T = tmp_in_size bytes of an earlier, incomplete header are parked in tmp_in_buffer (block_state
+ * ISAL_BLOCK_HDR; in ISAL_BLOCK_NEW_HDR nothing is parked).  One call
+ *   - in HDR state appends c = min(328 - T, avail_in) new bytes behind the parked ones (copy #0:
+ *     tmp_in_buffer+T <- next_in, c bytes) and lets read_header parse tmp_in_buffer[0 .. T+c);
+ *   - ISAL_END_INPUT (header still incomplete): the bit accumulator is exactly as on entry, ALL avail_in
+ *     bytes of the caller are appended behind the T parked ones (last copy: tmp_in_buffer+T <- the caller's
+ *     next_in, avail_in bytes; T + avail_in <= 328), tmp_in_size' == T + avail_in, the caller's input is
+ *     fully consumed, block_state' == ISAL_BLOCK_HDR  -- so that the next call sees the same logical input
+ *     extended by the new chunk, for any split;
+ *   - any other result: nothing stays parked (tmp_in_size' == 0) and the caller's input advanced by exactly
+ *     the number of *new* bytes read_header consumed (k - T if positive; k = bytes consumed from
+ *     tmp_in_buffer), in NEW_HDR state by exactly what read_header consumed.
+ * read_header and memcpy are stubs (contracts/stubs_inflate.h): interface contract resp. recording stub
+ * whose precondition (destination writable, source readable for n bytes) is proved at both call sites. */
+#if defined(INF_HDRS)
+#include "stubs_inflate.h"
+#define RHS_T ((uint32_t) __CPROVER_old(state->tmp_in_size))
+#define RHS_A (__CPROVER_old(state->avail_in))
+#define RHS_HDR (__CPROVER_old(state->block_state) == ISAL_BLOCK_HDR)
+#define RHS_C MIN2((uint32_t) ISAL_DEF_MAX_HDR_SIZE - RHS_T, RHS_A)
+#define C_read_header_stateful                                                                     \
+        __CPROVER_requires(INF_FRESH_STATE(state) && INF_FRESH_IN(state))                          \
+        __CPROVER_requires((state->block_state == ISAL_BLOCK_NEW_HDR && state->tmp_in_size == 0) || \
+                           (state->block_state == ISAL_BLOCK_HDR && state->tmp_in_size >= 0 &&     \
+                            state->tmp_in_size <= ISAL_DEF_MAX_HDR_SIZE))                          \
+        __CPROVER_requires(w_mc_calls == 0 && w_rh_calls == 0)                                     \
+        __CPROVER_assigns(w_rh_calls, w_rh_k, w_rh_avail, w_rh_next_in, w_mc_calls,                \
+                          __CPROVER_object_whole(w_mc_dst), __CPROVER_object_whole(w_mc_src),      \
+                          __CPROVER_object_whole(w_mc_n), state->read_in, state->read_in_length,   \
+                          state->next_in, state->avail_in, state->bfinal, state->type0_block_len,  \
+                          state->block_state, state->lit_huff_code, state->dist_huff_code,         \
+                          state->tmp_in_size)                                                      \
+        __CPROVER_ensures(__CPROVER_return_value == g_rh_ret && w_rh_calls == 1)                   \
+        /* what read_header was given */                                                           \
+        __CPROVER_ensures(RHS_HDR ? (w_rh_next_in == state->tmp_in_buffer &&                       \
+                                     w_rh_avail == RHS_T + RHS_C && w_mc_calls >= 1 &&             \
+                                     w_mc_dst[0] == (const void *) (state->tmp_in_buffer + RHS_T) && \
+                                     w_mc_src[0] == (const void *) __CPROVER_old(state->next_in) && \
+                                     w_mc_n[0] == RHS_C)                                           \
+                                  : (w_rh_next_in == __CPROVER_old(state->next_in) &&              \
+                                     w_rh_avail == RHS_A))                                         \
+        /* header still incomplete: everything is kept for the next call */                        \
+        __CPROVER_ensures(g_rh_ret == ISAL_END_INPUT ==>                                           \
+                          (state->read_in == __CPROVER_old(state->read_in) &&                      \
+                           state->read_in_length == __CPROVER_old(state->read_in_length) &&        \
+                           state->tmp_in_size == (int16_t) (RHS_T + RHS_A) &&                      \
+                           RHS_T + RHS_A <= ISAL_DEF_MAX_HDR_SIZE && state->avail_in == 0 &&       \
+                           state->next_in == __CPROVER_old(state->next_in) + RHS_A &&              \
+                           state->block_state == ISAL_BLOCK_HDR &&                                 \
+                           w_mc_calls == (RHS_HDR ? 2u : 1u) &&                                    \
+                           w_mc_dst[w_mc_calls - 1] ==                                             \
+                                   (const void *) (state->tmp_in_buffer + RHS_T) &&                \
+                           w_mc_src[w_mc_calls - 1] == (const void *) __CPROVER_old(state->next_in) && \
+                           w_mc_n[w_mc_calls - 1] == RHS_A))                                       \
+        /* decided: nothing parked, the caller's input advanced by the new bytes consumed */       \
+        __CPROVER_ensures(g_rh_ret != ISAL_END_INPUT ==>                                           \
+                          (state->tmp_in_size == 0 && w_mc_calls == (RHS_HDR ? 1u : 0u) &&         \
+                           state->next_in ==                                                       \
+                                   __CPROVER_old(state->next_in) +                                 \
+                                           (RHS_HDR ? (w_rh_k > RHS_T ? w_rh_k - RHS_T : 0) : w_rh_k) && \
+                           state->avail_in ==                                                      \
+                                   RHS_A - (RHS_HDR ? (w_rh_k > RHS_T ? w_rh_k - RHS_T : 0) : w_rh_k)))
+#endif /* INF_HDRS */
+
+/* =============================================================================================
+ * (g) setup_dynamic_header -- dynamic block header (RFC 1951 3.2.7), the part before the code-length
+ *     decoding loop exactly, the loop itself as a bounded stand-in (C06)
+ *
+ * With S the logical stream at entry (just after BFINAL/BTYPE) and NB its length in bits:
+ *   NB < 14                                  -> ISAL_END_INPUT
+ *   HLIT = S[0..4], HDIST = S[5..9], HCLEN = S[10..13];  HLIT > 29 or HDIST > 29 -> ISAL_INVALID_BLOCK
+ *        (RFC: HLIT+257 in 257..286, HDIST+1 in 1..30; 30 and 31 do not occur in valid streams)
+ *   NB < 14 + 3*(HCLEN+4)                    -> ISAL_END_INPUT
+ *   all HCLEN+4 code-length-code lengths zero -> ISAL_INVALID_BLOCK (no code-length symbol decodable)
+ *   the code-length code is rejected by set_codes (over-subscribed) -> ISAL_INVALID_BLOCK
+ *   always: only the documented codes 0 / ISAL_END_INPUT / ISAL_INVALID_BLOCK; 0 only with block_state ==
+ *   ISAL_BLOCK_CODED, otherwise block_state unchanged; frame = bit buffer, input position, the two
+ *   lookup tables, block_state.
+ * Callees are stubs (contracts/stubs_inflate.h, -DINF_DYN); decode_next_header delivers at most
+ * DYN_MAX_SYMS symbols, so the statements about the loop (memory safety, return codes) are BOUNDED, the
+ * five early-exit statements above are not (they are decided before the loop is entered).
+ * The pre-generated-header shortcut (header_matches_pregen) is stubbed to "no match". */
+#define DY_HLIT ((uint32_t) (g_s0 & 31))
+#define DY_HDIST ((uint32_t) ((g_s0 >> 5) & 31))
+#define DY_HCLEN ((uint32_t) ((g_s0 >> 10) & 15))
+#define DY_CL(j) ((uint32_t) ((S_FROM(14 + 3 * (j))) & 7))
+#define DY_CLZ(j) ((j) >= DY_HCLEN + 4 || DY_CL(j) == 0)
+#define DY_ALLZERO                                                                                 \
+        (DY_CLZ(0) && DY_CLZ(1) && DY_CLZ(2) && DY_CLZ(3) && DY_CLZ(4) && DY_CLZ(5) && DY_CLZ(6) && \
+         DY_CLZ(7) && DY_CLZ(8) && DY_CLZ(9) && DY_CLZ(10) && DY_CLZ(11) && DY_CLZ(12) &&          \
+         DY_CLZ(13) && DY_CLZ(14) && DY_CLZ(15) && DY_CLZ(16) && DY_CLZ(17) && DY_CLZ(18))
+#define DY_HDR_OK (g_bits0 >= 14 && DY_HLIT <= 29 && DY_HDIST <= 29 &&                             \
+                   g_bits0 >= 14 + 3 * ((int64_t) DY_HCLEN + 4))
+#if defined(INF_DYN)
+#include "stubs_inflate.h"
+#define C_setup_dynamic_header                                                                     \
+        __CPROVER_requires(INF_FRESH_STATE(state) && state->avail_in <= 0xfffffff7u &&             \
+                           INF_FRESH_IN(state))                                                    \
+        __CPROVER_requires(WF_inflate(state) && w_sc_calls == 0 && w_dnh_calls == 0 &&             \
+                           w_mk_calls == 0)                                                        \
+        __CPROVER_requires(g_s0 == STREAM64(state) && g_s1 == STREAM64_HI(state) &&                \
+                           g_bits0 == STREAM_BITS(state))                                          \
+        __CPROVER_assigns(state->read_in, state->read_in_length, state->next_in, state->avail_in,  \
+                          state->block_state, state->lit_huff_code, state->dist_huff_code,         \
+                          w_sc_calls, w_dnh_calls, w_mk_calls, __CPROVER_object_whole(w_sc_len))   \
+        __CPROVER_ensures(__CPROVER_return_value == 0 || __CPROVER_return_value == ISAL_END_INPUT || \
+                          __CPROVER_return_value == ISAL_INVALID_BLOCK)                            \
+        __CPROVER_ensures(__CPROVER_return_value == 0                                              \
+                                  ? state->block_state == ISAL_BLOCK_CODED                         \
+                                  : state->block_state == __CPROVER_old(state->block_state))       \
+        __CPROVER_ensures(state->avail_in <= __CPROVER_old(state->avail_in) &&                     \
+                          state->next_in == __CPROVER_old(state->next_in) +                        \
+                                                    (__CPROVER_old(state->avail_in) - state->avail_in)) \
+        __CPROVER_ensures(g_bits0 < 14 ==> __CPROVER_return_value == ISAL_END_INPUT)               \
+        __CPROVER_ensures((g_bits0 >= 14 && (DY_HLIT > 29 || DY_HDIST > 29)) ==>                   \
+                          __CPROVER_return_value == ISAL_INVALID_BLOCK)                            \
+        __CPROVER_ensures((g_bits0 >= 14 && DY_HLIT <= 29 && DY_HDIST <= 29 &&                     \
+                           g_bits0 < 14 + 3 * ((int64_t) DY_HCLEN + 4)) ==>                        \
+                          __CPROVER_return_value == ISAL_END_INPUT)                                \
+        __CPROVER_ensures((DY_HDR_OK && DY_ALLZERO) ==>                                            \
+                          (__CPROVER_return_value == ISAL_INVALID_BLOCK && w_sc_calls == 0))       \
+        /* otherwise the code-length code (19 entries) goes to set_codes, whose verdict is honoured */ \
+        __CPROVER_ensures((DY_HDR_OK && !DY_ALLZERO) ==> (w_sc_calls >= 1 && w_sc_len[0] == 19))   \
+        __CPROVER_ensures((DY_HDR_OK && !DY_ALLZERO && g_sc_ret[0] != 0) ==>                       \
+                          (__CPROVER_return_value == ISAL_INVALID_BLOCK && w_dnh_calls == 0))      \
+        /* nothing is decoded with a table that was not built; success only after all three tables */ \
+        __CPROVER_ensures(__CPROVER_return_value == 0 ==>                                          \
+                          (w_mk_calls == 3 && w_sc_calls == 2 && w_sc_len[1] == 30 &&              \
+                           g_sc_ret[0] == 0 && g_sc_ret[1] == 0))
+#define H_setup_dynamic_header_1 VCANARY();
+#define H_setup_dynamic_header_2 VCANARY();
+#define H_setup_dynamic_header_3 VCANARY();
+#endif /* INF_DYN */
 
 #endif
